@@ -425,8 +425,13 @@ func Update(ctx context.Context, scope *ReferenceScope, query parser.UpdateQuery
 		}
 	}
 
+	// A table may be listed under several aliases (self join). The tables to update
+	// are keyed by the identified path, the key they are stored back under, so that
+	// every alias of a table edits the same working copy.
 	viewsToUpdate := make(map[string]*View)
 	updatedCount := make(map[string]int)
+	tablesToUpdate := make(map[string]string)
+	headersToUpdate := make(map[string]Header)
 	for _, v := range query.Tables {
 		table := v.(parser.Table)
 		tableName, err := ParseTableName(ctx, queryScope, table)
@@ -446,15 +451,19 @@ func Update(ctx context.Context, scope *ReferenceScope, query parser.UpdateQuery
 		}
 		viewKey := strings.ToUpper(tableName.Literal)
 
-		if queryScope.TemporaryTableExists(fpath) {
-			viewsToUpdate[viewKey], _ = queryScope.GetTemporaryTable(parser.Identifier{Literal: fpath})
-		} else {
-			viewsToUpdate[viewKey], err = queryScope.Tx.CachedViews.Get(fpath)
-			if err != nil {
-				return nil, nil, NewInlineTableCannotBeUpdatedError(table.Object)
+		if _, ok := viewsToUpdate[fpath]; !ok {
+			if queryScope.TemporaryTableExists(fpath) {
+				viewsToUpdate[fpath], _ = queryScope.GetTemporaryTable(parser.Identifier{Literal: fpath})
+			} else {
+				viewsToUpdate[fpath], err = queryScope.Tx.CachedViews.Get(fpath)
+				if err != nil {
+					return nil, nil, NewInlineTableCannotBeUpdatedError(table.Object)
+				}
 			}
 		}
-		if err = viewsToUpdate[viewKey].Header.Update(tableName.Literal, nil); err != nil {
+		tablesToUpdate[viewKey] = fpath
+		headersToUpdate[viewKey] = viewsToUpdate[fpath].Header.Copy()
+		if err = headersToUpdate[viewKey].Update(tableName.Literal, nil); err != nil {
 			return nil, nil, err
 		}
 	}
@@ -478,7 +487,8 @@ func Update(ctx context.Context, scope *ReferenceScope, query parser.UpdateQuery
 			}
 			viewref = strings.ToUpper(viewref)
 
-			if _, ok := viewsToUpdate[viewref]; !ok {
+			fpath, ok := tablesToUpdate[viewref]
+			if !ok {
 				return nil, nil, NewUpdateFieldNotExistError(uset.Field)
 			}
 
@@ -495,19 +505,19 @@ func Update(ctx context.Context, scope *ReferenceScope, query parser.UpdateQuery
 				internalIds[viewref] = internalId
 			}
 
-			fieldIdx, _ := viewsToUpdate[viewref].Header.SearchIndex(uset.Field)
-			if _, ok := updatesList[viewref]; !ok {
-				updatesList[viewref] = make(map[int]*UintPool)
+			fieldIdx, _ := headersToUpdate[viewref].SearchIndex(uset.Field)
+			if _, ok := updatesList[fpath]; !ok {
+				updatesList[fpath] = make(map[int]*UintPool)
 			}
-			if _, ok := updatesList[viewref][internalId]; !ok {
-				updatesList[viewref][internalId] = NewUintPool(setListLen, LimitToUseUintSlicePool)
-				updatedCount[viewref]++
+			if _, ok := updatesList[fpath][internalId]; !ok {
+				updatesList[fpath][internalId] = NewUintPool(setListLen, LimitToUseUintSlicePool)
+				updatedCount[fpath]++
 			}
-			if updatesList[viewref][internalId].Exists(uint(fieldIdx)) {
+			if updatesList[fpath][internalId].Exists(uint(fieldIdx)) {
 				return nil, nil, NewUpdateValueAmbiguousError(uset.Field, uset.Value)
 			}
-			updatesList[viewref][internalId].Add(uint(fieldIdx))
-			viewsToUpdate[viewref].RecordSet[internalId][fieldIdx] = NewCell(val)
+			updatesList[fpath][internalId].Add(uint(fieldIdx))
+			viewsToUpdate[fpath].RecordSet[internalId][fieldIdx] = NewCell(val)
 		}
 	}
 
@@ -618,8 +628,12 @@ func Delete(ctx context.Context, scope *ReferenceScope, query parser.DeleteQuery
 		}
 	}
 
+	// A table may be listed under several aliases (self join). The tables to delete
+	// from are keyed by the identified path, the key they are stored back under, so
+	// that every alias of a table removes records from the same working copy.
 	viewsToDelete := make(map[string]*View)
 	deletedIndices := make(map[string]map[int]bool)
+	tablesToDelete := make(map[string]string)
 	for _, v := range query.Tables {
 		table := v.(parser.Table)
 		tableName, err := ParseTableName(ctx, queryScope, table)
@@ -637,20 +651,20 @@ func Delete(ctx context.Context, scope *ReferenceScope, query parser.DeleteQuery
 		if len(fpath) < 1 {
 			return nil, nil, NewInlineTableCannotBeUpdatedError(table.Object)
 		}
-		viewKey := strings.ToUpper(tableName.Literal)
+		tablesToDelete[strings.ToUpper(tableName.Literal)] = fpath
 
+		if _, ok := viewsToDelete[fpath]; ok {
+			continue
+		}
 		if queryScope.TemporaryTableExists(fpath) {
-			viewsToDelete[viewKey], _ = queryScope.GetTemporaryTable(parser.Identifier{Literal: fpath})
+			viewsToDelete[fpath], _ = queryScope.GetTemporaryTable(parser.Identifier{Literal: fpath})
 		} else {
-			viewsToDelete[viewKey], err = queryScope.Tx.CachedViews.Get(fpath)
+			viewsToDelete[fpath], err = queryScope.Tx.CachedViews.Get(fpath)
 			if err != nil {
 				return nil, nil, NewInlineTableCannotBeUpdatedError(table.Object)
 			}
 		}
-		if err = viewsToDelete[viewKey].Header.Update(tableName.Literal, nil); err != nil {
-			return nil, nil, err
-		}
-		deletedIndices[viewKey] = make(map[int]bool)
+		deletedIndices[fpath] = make(map[int]bool)
 	}
 
 	for i := range view.RecordSet {
@@ -658,13 +672,13 @@ func Delete(ctx context.Context, scope *ReferenceScope, query parser.DeleteQuery
 			return nil, nil, ConvertContextError(ctx.Err())
 		}
 
-		for viewref := range viewsToDelete {
+		for viewref, fpath := range tablesToDelete {
 			internalId, err := view.InternalRecordId(viewref, i)
 			if err != nil {
 				continue
 			}
-			if !deletedIndices[viewref][internalId] {
-				deletedIndices[viewref][internalId] = true
+			if !deletedIndices[fpath][internalId] {
+				deletedIndices[fpath][internalId] = true
 			}
 		}
 	}
